@@ -7,7 +7,7 @@ CONFIG = {
     "extracted": ["gds"],
     "driver": "gds",
     "harness": "gds",
-    "kinds": "spec,wr,rd",
+    "kinds": "spec,wr,rd,gw",
     "rule": ("kind spec = streams from the independent specification-level encoder in harness/gds.cpp (BOUNDARY and BOX, PATH with "
              "path types 0/1/2/4 and extensions, negative WIDTH, SREF and AREF with any STRANS/MAG/ANGLE, TEXT with PRESENTATION, "
              "PROPATTR/PROPVALUE, XY split at random places, optional ELFLAGS/PLEX/REFLIBS/GENERATIONS/STRCLASS records, several "
